@@ -5,6 +5,7 @@ C14.A1 (T-pair) every register acquired by SDK internals is released or has its
 C14.A2 a register obtained without activation is protected before any call that
        may allocate
 C14.A3 the pool is the whole R bank
+C14.A4 a register is not used (handed to an emitter) after it was released
 """
 from __future__ import annotations
 
@@ -111,6 +112,52 @@ def alloc_reaching(units) -> Set[str]:
     return reach
 
 
+def check_use_after_release(ctx, rule: str, units=None):
+    """a register must stay active until its last use has been emitted: after remove_active_register(v), `v` may not be
+    handed to an emitting call or put into a command on the same path"""
+    repo = ctx.repo
+    if units is None:
+        units, _ = collect_units(repo)
+    n = 0
+    for q, (fn, m) in sorted(units.items()):
+        for call in A.calls_in(fn, nested=False):
+            if A.call_name(call) != O.REL or not call.args or not isinstance(call.args[0], ast.Name):
+                continue
+            v = call.args[0].id
+            path = G.path_to(fn, call)
+            if path is None:
+                continue
+            n += 1
+            later: List[ast.stmt] = []
+            # a release inside a loop body releases the loop variable; later iterations rebind it
+            in_loop_over = any(isinstance(b[i], (ast.For, ast.While)) and isinstance(getattr(b[i], "target", None), ast.Name) and b[i].target.id == v for b, i in path)
+            if in_loop_over:
+                ctx.check(rule, f"{q}:release-of-{v}:no-later-use", True, trivial=True)
+                continue
+            for block, idx in reversed(path):
+                later.extend(block[idx + 1:])
+            use = None
+            for st in later:
+                if isinstance(st, (ast.FunctionDef, ast.AsyncFunctionDef, ast.ClassDef)):
+                    continue
+                if isinstance(st, (ast.Assign, ast.AnnAssign)) and any(isinstance(t, ast.Name) and t.id == v for t in (st.targets if isinstance(st, ast.Assign) else [st.target])):
+                    break
+                for x in A.walk_no_nested(st):
+                    if isinstance(x, ast.Call) and A.call_name(x) != O.REL:
+                        for a in list(x.args) + [k.value for k in x.keywords]:
+                            if any(isinstance(y, ast.Name) and y.id == v and isinstance(y.ctx, ast.Load) for y in ast.walk(a)):
+                                use = x
+                                break
+                    if use is not None:
+                        break
+                if use is not None:
+                    break
+            ctx.check(rule, f"{q}:release-of-{v}:no-later-use", use is None,
+                      f"{q} releases register `{v}` and afterwards still passes it to `{src(use)[:70] if use is not None else ''}`: commands that use the register are built while it is free, "
+                      f"so a temporary allocated there can be the very same register and overwrite its live value", repo.loc(m, call), sample={"unit": q, "register": v} if n <= 3 else None, trivial=(use is None and n > 3))
+    ctx.anchor(rule, "register release sites", n, 20)
+
+
 def run(ctx):
     repo, ev = ctx.repo, ctx.ev
     units, by_name = collect_units(repo)
@@ -210,6 +257,8 @@ def run(ctx):
                   + (f"`{src(risky)[:60]}` can allocate a register before `{var}` is protected, and would hand out the same register" if risky is not None else "it is never protected (loop_register= / _activate_register / add_active_register)"),
                   repo.loc(m, call), sample={"unit": q, "register": var, "protected": protected})
     ctx.anchor("C14.A2", "non-activating acquire sites", n2, 4)
+    # ---- A4 no use after release
+    check_use_after_release(ctx, "C14.A4", units)
     # ---- A3 pool
     mm = repo.get_class("netqasm.sdk.memmgr", "MemoryManager")
     gi = mm.methods.get("get_inactive_register")
@@ -256,6 +305,8 @@ SEEDS = [
     dict(id="c14-early-return", file=B, expect="C14.A1", construct="_build_cmds_epr_keep_corrections", old="        loop_register = self._mem_mgr.get_inactive_register()\n\n        def loop(conn: BaseNetQASMConnection, index: RegFuture):", new="        loop_register = self._mem_mgr.get_inactive_register()\n        if params.number == 0:\n            return\n\n        def loop(conn: BaseNetQASMConnection, index: RegFuture):"),
     dict(id="c14-unprotected", file=B, expect="C14.A2", construct="_build_cmds_undefine_array", old="        index_reg = self._mem_mgr.get_inactive_register()\n        undef_cmd = ICmd(", new="        index_reg = self._mem_mgr.get_inactive_register()\n        tmp = self._mem_mgr.get_inactive_register(activate=True)\n        self._mem_mgr.remove_active_register(tmp)\n        undef_cmd = ICmd("),
     dict(id="c14-pool", file="netqasm/sdk/memmgr.py", expect="C14.A3", construct="pool", old="        for i in range(2**REG_INDEX_BITS):\n            register = parse_register(f\"R{i}\")", new="        for i in range(1, 2**REG_INDEX_BITS):\n            register = parse_register(f\"R{i}\")"),
+    dict(id="c14-release-before-build", file=B, expect="C14.A4", construct="_loop_until_context_exit", old="        self._build_cmds_loop_until(\n            pre_commands=pre_commands,\n            body_commands=body_commands,\n            context=context,\n            loop_register=loop_register,\n        )\n        self._mem_mgr.remove_active_register(loop_register)\n",
+         new="        self._mem_mgr.remove_active_register(loop_register)\n        self._build_cmds_loop_until(\n            pre_commands=pre_commands,\n            body_commands=body_commands,\n            context=context,\n            loop_register=loop_register,\n        )\n"),
     dict(id="c14-orig-unary-flag", file=B, expect="C14.A1", construct="_get_branch_commands_single_operand", old="        if isinstance(op, Future):\n            assert isinstance(cond_operand, operand.Register)\n            self._mem_mgr.remove_active_register(cond_operand)\n", new="        using_new_temp_reg = False\n        if using_new_temp_reg:\n            assert isinstance(cond_operand, operand.Register)\n            self._mem_mgr.remove_active_register(cond_operand)\n"),
     dict(id="c14-orig-break-list", file=B, expect="C14.A1", construct="_loop_until_get_break_commands", old="            for reg in temp_regs_to_remove:\n                self._mem_mgr.remove_active_register(reg)\n        else:\n            assert False", new="        else:\n            assert False"),
     dict(id="c14-orig-loop-until-register", file=B, expect="C14.A1", construct="_loop_until_context_enter", old="            loop_register=loop_register,\n        )\n        self._mem_mgr.remove_active_register(loop_register)\n\n    def _build_cmds_breakpoint(", new="            loop_register=loop_register,\n        )\n\n    def _build_cmds_breakpoint("),
